@@ -680,6 +680,56 @@ def drive_c20(tier, seed, cfg):
             sigs.add(common.dumps(("C20", "signal", signame, rc, bool(left_t), round(delay, 1))))
             if left_t:
                 add("interrupt-leaves-files-in-tmpdir", dict(signal=signame, delay=delay, rc=rc, left=left_t[:5]), dict(signal=signame, delay=delay))
+    # the file argument names something that is not a regular file: a FIFO, a device, /dev/stdin (accepted or refused - nothing
+    # stays behind; seeded change C20-f spooled such input into a temporary file nobody owned)
+    def run_oddinput(k):
+        d = tempfile.mkdtemp(prefix="oi-", dir=fd)
+        t2, c2 = os.path.join(d, "tmp"), os.path.join(d, "cwd")
+        os.makedirs(t2)
+        os.makedirs(c2)
+        kind = ["fifo", "dev-null", "dev-stdin", "fifo-blank"][k % 4]
+        data = inputs["in0.tjp"] if kind != "fifo-blank" else b"  \n"
+        keep = None
+        stdin_arg = subprocess.DEVNULL
+        if kind.startswith("fifo"):
+            path = os.path.join(c2, "pipe.tjp")
+            os.mkfifo(path)
+            keep = os.open(path, os.O_RDWR | os.O_NONBLOCK)      # the harness holds both ends: nobody blocks on open
+            try:
+                os.write(keep, data[:60000])
+            except OSError:
+                pass
+            arg = "pipe.tjp"
+        elif kind == "dev-null":
+            arg = "/dev/null"
+        else:
+            arg = "/dev/stdin"
+            stdin_arg = None
+        try:
+            p = subprocess.run([PLAN, "--quiet", "report"] + (["--csv"] if (k // 4) % 2 else []) + [arg], cwd=c2, env=cli_env(t2),
+                               input=(data if stdin_arg is None else None), stdin=(None if stdin_arg is None else stdin_arg), capture_output=True, timeout=60)
+            rc = p.returncode
+        except subprocess.TimeoutExpired:
+            rc = "timeout"
+        finally:
+            if keep is not None:
+                os.close(keep)
+        left_t = snapshot(t2)
+        left_c = [x for x in snapshot(c2) if x != "pipe.tjp"]
+        shutil.rmtree(d, ignore_errors=True)
+        return k, kind, rc, left_t, left_c
+    with cf.ThreadPoolExecutor(max_workers=8) as ex:
+        for k, kind, rc, left_t, left_c in ex.map(run_oddinput, range(tc.get("oddinputs", 8))):
+            C["odd-input-path-runs"] += 1
+            sigs.add(common.dumps(("C20", "oddinput", kind, rc if isinstance(rc, str) else (0 if rc == 0 else "fail"), bool(left_t))))
+            rp = dict(input_path_kind=kind, rc=rc)
+            if rc == "timeout":
+                notes.append("odd-input run timed out (inconclusive): %s" % rp)
+                continue
+            if left_t:
+                add("odd-input-path-run-leaves-files-in-tmpdir", dict(kind=kind, rc=rc, left=left_t[:5]), rp)
+            if left_c:
+                add("odd-input-path-run-leaves-files-in-cwd", dict(kind=kind, rc=rc, left=left_c[:5]), rp)
     # --output FILE: a run that fails creates nothing in the working directory, a run that succeeds exactly FILE
     # (seeded change C20-e claimed the name before scheduling and never gave it back)
     def run_outfile(k):
@@ -760,7 +810,7 @@ def drive_c20(tier, seed, cfg):
             if left_c:
                 add("unwritable-stdout-leaves-files-in-cwd", dict(kind=kind, rc=rc, left=left_c[:5]), rp)
     shutil.rmtree(root, ignore_errors=True)
-    C["cases"] = C["concurrent-processes"] + C["failpoint-runs"] + C["sigint-runs"] + C["solitary-runs"] + C["unwritable-stdout-runs"] + C["output-file-runs"]
+    C["cases"] = C["concurrent-processes"] + C["failpoint-runs"] + C["sigint-runs"] + C["solitary-runs"] + C["unwritable-stdout-runs"] + C["output-file-runs"] + C["odd-input-path-runs"]
     C["nontrivial"] = len(sigs)
     C["distinct-interleavings"] = sum(1 for s in sigs if s.startswith("interleaving:"))
     return dict(C=C, sigs=sigs, viols=viols, vc=vc, samples=samples, notes=notes, status=status, nworkers=common.NCPU)
